@@ -95,9 +95,12 @@ auto dr_numerical(auto && f, auto && x)
             if (eps0 == 0.) { eps0 = sqrteps; }
           }
 
+          // perturbed arguments are restored from a copy: stepping back with -eps only returns
+          // to the original point up to rounding, which accumulates over the O(nx^2) perturbations
+          const W0 w0_orig = w0;
           w0               = rplus<W0>(w0, eps0 * Eigen::Vector<Scalar, Nx_i0>::Unit(nx_i0, k0));
           const Result F10 = std::apply(f, x_nc);
-          w0               = rplus<W0>(w0, -eps0 * Eigen::Vector<Scalar, Nx_i0>::Unit(nx_i0, k0));
+          w0               = w0_orig;
 
           const Eigen::Matrix<Scalar, Ny, 1> d1 = rminus(F10, fval);
 
@@ -110,13 +113,15 @@ auto dr_numerical(auto && f, auto && x)
               if (eps1 == 0.) { eps1 = sqrteps; }
             }
 
-            // do this in order to ensure we return to same point on spaces with non-zero brackets
+            // w0 and w1 may be the same object: undo in reverse order of the perturbations
+            const W1 w1_orig = w1;
             w1               = rplus<W1>(w1, eps1 * Eigen::Vector<Scalar, Nx_i1>::Unit(nx_i1, k1));
             const Result F01 = std::apply(f, x_nc);
+            const W0 w0_pert = w0;
             w0               = rplus<W0>(w0, eps0 * Eigen::Vector<Scalar, Nx_i0>::Unit(nx_i0, k0));
             const Result F11 = std::apply(f, x_nc);
-            w0               = rplus<W0>(w0, -eps0 * Eigen::Vector<Scalar, Nx_i0>::Unit(nx_i0, k0));
-            w1               = rplus<W1>(w1, -eps1 * Eigen::Vector<Scalar, Nx_i1>::Unit(nx_i1, k1));
+            w0               = w0_pert;
+            w1               = w1_orig;
 
             const Eigen::Matrix<Scalar, Ny, 1> d2 = (rminus(F11, F01) - d1) / eps0 / eps1;
             for (auto j = 0u; j < ny; ++j) { H(I0 + k0, j * nx + I1 + k1) = d2(j); }
